@@ -117,7 +117,9 @@ def _make(step, tool, coolant, bmode, relative=False, halt=None, history=False):
 
 def cells(tier):
     out = []
-    states = [(None, None), (("spin", "cw"), "flood")]
+    # (None, "flood"): only the second interlock (coolant) rejects; a seeded change of round 5 (C05-9)
+    # moved an assignment between the two interlock tests and needs exactly this state
+    states = [(None, None), (("spin", "cw"), "flood"), (None, "flood")]
     if tier != "quick":
         states = [(t, c) for t in TOOLS for c in COOLANTS]
     for step in STEPS:
